@@ -96,14 +96,15 @@ Proof.
       destruct (negb (is_pow2_up_to (if size =? 0 then reg_size a else size) 8)); [inv H; reflexivity |].
       destruct l as [pl | s1 o1]; [inv H; discriminate |].
       destruct b as [pb | s2 o2]; [inv H; discriminate |].
-      destruct (s1 =? s2); inv H; discriminate.
+      destruct (s1 =? s2); [| inv H; discriminate].
+      destruct (_ && _); inv H; [reflexivity | discriminate].
     + unfold embed_label_builder in H. destruct ((size =? 0) || is_pow2_up_to size 8); inv H; [discriminate | reflexivity].
     + unfold embed_label_builder in H. destruct ((size =? 0) || is_pow2_up_to size 8); inv H; [discriminate | reflexivity].
   - (* CBindAtomic *)
     destruct fl.
     + unfold bind_assembler_atomic in H.
       destruct (nthZ (st_labels s) id) as [[p | sec off] |]; try (inv H; reflexivity).
-      destruct (0 <? Z.min patchfail (count_resolvable (st_cur s) p)); inv H; [reflexivity | discriminate].
+      destruct (0 <? unpatchable_count s p); inv H; [reflexivity | discriminate].
     + unfold bind_builder in H. destruct (nthZ (st_labels s) id) as [[[| f p] | sec off] |]; inv H; try discriminate; reflexivity.
     + unfold bind_builder in H. destruct (nthZ (st_labels s) id) as [[[| f p] | sec off] |]; inv H; try discriminate; reflexivity.
 Qed.
@@ -132,8 +133,8 @@ Proof.
 Qed.
 
 Example atomic_bind_refuses : 
-  step FAssembler X86_64 HReturn (mkState [200] 0 [LUnbound [mkFix 0 false]] 1 0 0 0 one_clear) (CBindAtomic 0 1)
-  = (mkState [200] 0 [LUnbound [mkFix 0 false]] 1 0 0 0 one_clear, report HReturn kInvalidDisplacement).
+  step FAssembler X86_64 HReturn (mkState [200] 0 [LUnbound [mkFix 0 false 10 (-1) 8 0]] 1 0 0 0 one_clear) (CBindAtomic 0 1)
+  = (mkState [200] 0 [LUnbound [mkFix 0 false 10 (-1) 8 0]] 1 0 0 0 one_clear, report HReturn kInvalidDisplacement).
 Proof. reflexivity. Qed.
 
 (* the guard is necessary: the faithful model of bind_label binds the label although it reports kInvalidDisplacement *)
@@ -141,7 +142,7 @@ Theorem failed_bind_displacement_refuted : exists fl a h s c s' o,
   step fl a h s c = (s', o) /\ failed o = true /\ persistent s' <> persistent s.
 Proof.
   exists FAssembler, X86_64, HReturn,
-    (mkState [200] 0 [LUnbound [mkFix 0 false]] 1 0 0 0 one_clear), (CBind 0 1).
+    (mkState [200] 0 [LUnbound [mkFix 0 false 10 (-1) 8 0]] 1 0 0 0 one_clear), (CBind 0 1).
   eexists. eexists. split; [reflexivity |]. split; [reflexivity |]. cbv. intro H. discriminate H.
 Qed.
 
@@ -249,7 +250,9 @@ Proof.
       destruct (negb (is_pow2_up_to (if size =? 0 then reg_size a else size) 8)); [inv H; apply (R kInvalidOperandSize); [discriminate | left; reflexivity] |].
       destruct l as [pl | s1 o1]; [inv H; discriminate |].
       destruct b as [pb | s2 o2]; [inv H; discriminate |].
-      destruct (s1 =? s2); inv H; discriminate.
+      destruct (s1 =? s2); [| inv H; discriminate].
+      destruct (_ && _); inv H; [| discriminate].
+      apply (R kInvalidDisplacement); [discriminate | left; reflexivity].
     + unfold embed_label_builder in H. destruct ((size =? 0) || is_pow2_up_to size 8); inv H; [discriminate |].
       apply (R kInvalidOperandSize); [discriminate | left; reflexivity].
     + unfold embed_label_builder in H. destruct ((size =? 0) || is_pow2_up_to size 8); inv H; [discriminate |].
@@ -258,7 +261,7 @@ Proof.
     destruct fl.
     + unfold bind_assembler_atomic in H.
       destruct (nthZ (st_labels s) id) as [[p | sec off] |].
-      * destruct (0 <? Z.min patchfail (count_resolvable (st_cur s) p)); inv H; [| discriminate].
+      * destruct (0 <? unpatchable_count s p); inv H; [| discriminate].
         apply (R kInvalidDisplacement); [discriminate | left; reflexivity].
       * inv H. apply (R kLabelAlreadyBound); [discriminate | left; reflexivity].
       * inv H. apply (R kInvalidLabel); [discriminate | left; reflexivity].
@@ -324,13 +327,15 @@ Proof.
       destruct (negb (is_pow2_up_to (if size =? 0 then reg_size a else size) 8)); [inv H; eapply R; [| reflexivity]; discriminate |].
       destruct l as [pl | s1 o1]; [inv H; reflexivity |].
       destruct b as [pb | s2 o2]; [inv H; reflexivity |].
-      destruct (s1 =? s2); inv H; reflexivity.
+      destruct (s1 =? s2); [| inv H; reflexivity].
+      destruct (_ && _); inv H; [| reflexivity].
+      eapply R; [| reflexivity]; discriminate.
     + unfold embed_label_builder in H. destruct ((size =? 0) || is_pow2_up_to size 8); inv H; [reflexivity |]. eapply R; [| reflexivity]; discriminate.
     + unfold embed_label_builder in H. destruct ((size =? 0) || is_pow2_up_to size 8); inv H; [reflexivity |]. eapply R; [| reflexivity]; discriminate.
   - destruct fl.
     + unfold bind_assembler_atomic in H.
       destruct (nthZ (st_labels s) id) as [[p | sec off] |].
-      * destruct (0 <? Z.min patchfail (count_resolvable (st_cur s) p)); inv H; [| reflexivity].
+      * destruct (0 <? unpatchable_count s p); inv H; [| reflexivity].
         eapply R; [| reflexivity]; discriminate.
       * inv H. eapply R; [| reflexivity]; discriminate.
       * inv H. eapply R; [| reflexivity]; discriminate.
@@ -369,12 +374,12 @@ Proof.
     + destruct (nthZ (st_labels s) id) as [l |]; [| reflexivity].
       destruct (nthZ (st_labels s) base) as [b |]; [| reflexivity].
       destruct (negb (is_pow2_up_to (if size =? 0 then reg_size a else size) 8)); [reflexivity |].
-      destruct l; [reflexivity |]. destruct b; [reflexivity |]. destruct (sec =? sec0); reflexivity.
+      destruct l; [reflexivity |]. destruct b; [reflexivity |]. destruct (sec =? sec0); [| reflexivity]. destruct (_ && _); reflexivity.
     + destruct ((size =? 0) || is_pow2_up_to size 8); reflexivity.
     + destruct ((size =? 0) || is_pow2_up_to size 8); reflexivity.
   - destruct fl; [unfold bind_assembler_atomic | unfold bind_builder | unfold bind_builder].
     + destruct (nthZ (st_labels s) id) as [[p | sec off] |]; try reflexivity.
-      destruct (0 <? Z.min patchfail (count_resolvable (st_cur s) p)); reflexivity.
+      destruct (0 <? unpatchable_count s p); reflexivity.
     + destruct (nthZ (st_labels s) id) as [[[| f p] | sec off] |]; reflexivity.
     + destruct (nthZ (st_labels s) id) as [[[| f p] | sec off] |]; reflexivity.
 Qed.
@@ -479,3 +484,37 @@ Example pruned_history_example :
     [CNewLabel; CSetOptions 8; CInst (EncErr kInvalidLabel); CBind 7 0; CInst (EncOk 3 None false 0 0 0); CAlign 9 4]
   = [CNewLabel; CSetOptions 8; CResetState; CResetComment; CInst (EncOk 3 None false 0 0 0)].
 Proof. reflexivity. Qed.
+
+(* ---------------------------------------------------------------- the refusal of a bind is computed, not supplied *)
+Theorem bind_atomic_ignores_patchfail : forall h s id pf1 pf2,
+  bind_assembler_atomic h s id pf1 = bind_assembler_atomic h s id pf2.
+Proof. intros. unfold bind_assembler_atomic. destruct (nthZ (st_labels s) id) as [[p | sec off] |]; reflexivity. Qed.
+
+Lemma lenZ_filter_pos : forall {A} (f : A -> bool) (l : list A), 0 < lenZ (filter f l) <-> exists x, In x l /\ f x = true.
+Proof.
+  intros A f l. unfold lenZ. split.
+  - intros H. destruct (filter f l) as [| x t] eqn:E; [cbn in H; lia |].
+    exists x. apply filter_In. rewrite E. left. reflexivity.
+  - intros [x [I F]]. assert (In x (filter f l)) as I' by (apply filter_In; split; assumption).
+    destruct (filter f l); [destruct I' | cbn [length]; lia].
+Qed.
+
+(* an (atomic) bind of an unbound label is refused with kInvalidDisplacement exactly when one of the label's pending
+   fixups of the current section (not relocation-linked) has a displacement that its OffsetFormat cannot hold *)
+Theorem bind_atomic_refuses_iff : forall h s id pf p,
+  nthZ (st_labels s) id = Some (LUnbound p) ->
+  (o_ret (snd (bind_assembler_atomic h s id pf)) = kInvalidDisplacement <->
+   exists f, In f p /\ fx_reloc f = false /\ fx_section f = st_cur s /\ disp_fits f (cur_size s) = false).
+Proof.
+  intros h s id pf p L. unfold bind_assembler_atomic. rewrite L.
+  destruct (0 <? unpatchable_count s p) eqn:E.
+  - apply Z.ltb_lt in E. unfold unpatchable_count in E. apply lenZ_filter_pos in E. destruct E as [f [I F]].
+    split; [intros _ | intros _; cbn [snd]; apply report_ret].
+    exists f. apply andb_true_iff in F. destruct F as [F1 F3]. apply andb_true_iff in F1. destruct F1 as [F1 F2].
+    repeat split; [exact I | apply negb_true_iff; exact F1 | apply Z.eqb_eq; exact F2 | apply negb_true_iff; exact F3].
+  - apply Z.ltb_ge in E. split; [cbn; discriminate |].
+    intros [f [I [R [S D]]]]. exfalso.
+    assert (0 < unpatchable_count s p); [| lia].
+    unfold unpatchable_count. apply lenZ_filter_pos. exists f. split; [exact I |].
+    rewrite R, S, D, Z.eqb_refl. reflexivity.
+Qed.
